@@ -87,3 +87,10 @@ def chr (i : Int) : Except PyErr Nat :=
 
 end Py
 end Hera
+
+namespace Hera
+namespace Py
+/-- Python `l * n` on a list. -/
+def listMul {α} (l : List α) (n : Int) : List α := (List.replicate n.toNat l).flatten
+end Py
+end Hera
